@@ -1076,24 +1076,41 @@ pub fn field<'a>(text: &'a str, name: &str) -> Option<&'a str> {
 
 /// Everything the `Iterator` trait lets a client do with an iterator the code under test hands out,
 /// compared with the item list `want` obtained independently: an implementation may override any
-/// provided method (`size_hint`, `count`, `last`, `nth`, `fold`, ...), so each of them is called on a
-/// fresh iterator and on iterators that were already advanced by 1..len items.
-pub fn iter_battery<I, T>(make: impl Fn() -> I, want: &[T], what: &str) -> Result<(), String>
+/// provided method (`size_hint`, `count`, `last`, `nth`, `fold`, ...), so each of them is called ON
+/// THE ITERATOR ITSELF (never through an adapter such as `map`, whose own `last` / `count` go
+/// through `fold`), on a fresh iterator and on iterators already advanced by 1..len items; items
+/// are converted by `conv` after they were produced.
+pub fn iter_battery<I, T>(make: impl Fn() -> I, conv: impl Fn(I::Item) -> T, want: &[T], what: &str) -> Result<(), String>
 where
-    I: Iterator<Item = T>,
+    I: Iterator,
     T: PartialEq + std::fmt::Debug,
 {
     let n = want.len();
-    let all: Vec<T> = make().collect();
-    if all != want {
-        return Err(format!("{}: collect() = {:?} expected {:?}", what, all, want));
+    let mut all: Vec<T> = Vec::new();
+    let mut it = make();
+    while let Some(x) = it.next() {
+        all.push(conv(x));
+        if all.len() > n + 4 {
+            break;
+        }
     }
-    for k in 0..=n.min(6) {
+    if all != want {
+        return Err(format!("{}: next() until None yields {:?} expected {:?}", what, all, want));
+    }
+    let collected: Vec<T> = make().collect::<Vec<_>>().into_iter().map(&conv).collect();
+    if collected != want {
+        return Err(format!("{}: collect() = {:?} expected {:?}", what, collected, want));
+    }
+    let mut ks: Vec<usize> = vec![0, 1, 2, n.saturating_sub(1), n];
+    ks.retain(|k| *k <= n);
+    ks.sort();
+    ks.dedup();
+    for k in ks {
         // k = number of items taken with next() before the provided method is called
         let advanced = || -> Result<I, String> {
             let mut it = make();
             for j in 0..k {
-                let got = it.next();
+                let got = it.next().map(&conv);
                 if got.as_ref() != want.get(j) {
                     return Err(format!("{}: next() #{} = {:?} expected {:?}", what, j + 1, got, want.get(j)));
                 }
@@ -1108,38 +1125,65 @@ where
         if c != n - k {
             return Err(format!("{}: count() after {} items = {} expected {}", what, k, c, n - k));
         }
-        let l = advanced()?.last();
+        let l = advanced()?.last().map(&conv);
         let wl = if k < n { want.last() } else { None };
         if l.as_ref() != wl {
             return Err(format!("{}: last() after {} items = {:?} expected {:?}", what, k, l, wl));
         }
-        for j in [0usize, 1, 2, n.saturating_sub(k + 1), n - k, n - k + 1, usize::MAX] {
+        let mut js: Vec<usize> = vec![0usize, 1, n.saturating_sub(k + 1), n - k, usize::MAX];
+        js.sort();
+        js.dedup();
+        for j in js {
             let mut it = advanced()?;
-            let got = it.nth(j);
+            let got = it.nth(j).map(&conv);
             let w = k.checked_add(j).and_then(|i| want.get(i));
             if got.as_ref() != w {
                 return Err(format!("{}: nth({}) after {} items = {:?} expected {:?}", what, j, k, got, w));
             }
             // and the iterator carries on from there
-            let after = it.next();
+            let after = it.next().map(&conv);
             let wa = k.checked_add(j).and_then(|i| i.checked_add(1)).and_then(|i| want.get(i));
             if got.is_some() && after.as_ref() != wa {
                 return Err(format!("{}: next() after nth({}) after {} items = {:?} expected {:?}", what, j, k, after, wa));
             }
+            // last() / count() after a jump
+            if j <= 1 {
+                let mut it = advanced()?;
+                let _ = it.nth(j);
+                let l = it.last().map(&conv);
+                let wl = if k.saturating_add(j).saturating_add(1) < n { want.last() } else { None };
+                if l.as_ref() != wl {
+                    return Err(format!("{}: last() after nth({}) after {} items = {:?} expected {:?}", what, j, k, l, wl));
+                }
+                let mut it = advanced()?;
+                let _ = it.nth(j);
+                let c = it.count();
+                let wc = n.saturating_sub(k.saturating_add(j).saturating_add(1));
+                if c != wc {
+                    return Err(format!("{}: count() after nth({}) after {} items = {} expected {}", what, j, k, c, wc));
+                }
+            }
+        }
+        if k > 1 {
+            continue;
         }
         let folded: Vec<T> = advanced()?.fold(Vec::new(), |mut v, x| {
-            v.push(x);
+            v.push(conv(x));
             v
         });
         if folded != want[k..] {
             return Err(format!("{}: fold() after {} items = {:?} expected {:?}", what, k, folded, &want[k..]));
         }
-        let skipped: Vec<T> = advanced()?.skip(1).collect();
+        let skipped: Vec<T> = advanced()?.skip(1).map(&conv).collect();
         if skipped != want[(k + 1).min(n)..] {
             return Err(format!("{}: skip(1) after {} items = {:?} expected {:?}", what, k, skipped, &want[(k + 1).min(n)..]));
         }
-        let mut it = advanced()?;
-        let stepped: Vec<T> = it.by_ref().step_by(2).collect();
+        let skip_last = advanced()?.skip(1).last().map(&conv);
+        let wsl = if k + 1 < n { want.last() } else { None };
+        if skip_last.as_ref() != wsl {
+            return Err(format!("{}: skip(1).last() after {} items = {:?} expected {:?}", what, k, skip_last, wsl));
+        }
+        let stepped: Vec<T> = advanced()?.step_by(2).map(&conv).collect();
         let ws: Vec<&T> = want[k..].iter().step_by(2).collect();
         if stepped.iter().collect::<Vec<_>>() != ws {
             return Err(format!("{}: step_by(2) after {} items = {:?} expected {:?}", what, k, stepped, ws));
